@@ -95,13 +95,16 @@ def enumerate_cases(tier):
     # x label kind x join x sort
     hists = [{"mode": "none"}, {"mode": "warm"}, {"mode": "relabel", "init": "sorted"}, {"mode": "relabel", "init": "shuffled"}, {"mode": "transposed"},
              {"mode": "fortran"}, {"mode": "copyof"}, {"mode": "slice", "front": [[99, -99], [77]], "back": [[55], []]}]
-    pairs = {"i": ([10, 20, 30], [5, 15, 25]), "f": ([0.5, 2.5, 4.5], [0.1, 2.5, 3.3]), "s": (["b", "d", "f"], ["a", "c", "e"])}
+    pairs = {"i": ([10, 20, 30], [5, 15, 25]), "f": ([0.5, 2.5, 4.5], [0.1, 2.5, 3.3]), "s": (["b", "d", "f"], ["a", "c", "e"]),
+             # the same label set in both inputs (the second one stored in another order), also closely spaced floats
+             "same-i": ([10, 20, 30, 40], [10, 30, 20, 40]), "same-F": ([2000.001, 2000.002, 2000.003, 2000.004], [2000.001, 2000.003, 2000.002, 2000.004]),
+             "same-s": (["a", "b", "c", "d"], ["a", "c", "b", "d"])}
     for kind, (la, lb) in pairs.items():
         for direction in ("inc", "dec", "mixed"):
             a_l = la[::-1] if direction == "dec" else la
             b_l = lb[::-1] if direction in ("dec", "mixed") else lb
             for h in hists:
-                if h["mode"] == "slice" and kind == "s":
+                if h["mode"] == "slice" and kind in ("s", "same-s"):
                     h = {"mode": "slice", "front": [["zq0", "zq1"], [77]], "back": [["zq2"], []]}
                 for join in ("outer", "inner"):
                     for sort in (False, True):
